@@ -17,6 +17,9 @@ _file_counter = itertools.count()
 FILE_MID = {}
 
 
+MISSING_ANN = object()   # ann_override value meaning "leave the parameter unannotated"
+
+
 class Default:
     """Unique default object of one parameter of one method (C03 identity checks)."""
 
@@ -120,7 +123,11 @@ def make_method(spec, env, vf, body_lines, tag="x", extra_globals=None, ann_over
         if k.get("t") is not None:
             anns[k["n"]] = _tx.ann(k["t"], env, spelling)
     if ann_override:
-        anns.update(ann_override)
+        for k, v in ann_override.items():
+            if v is MISSING_ANN:
+                anns.pop(k, None)
+            else:
+                anns[k] = v
     fn.__annotations__ = anns
     fn.__vf_defaults__ = {d.name: d for d in defaults.values()}
     return fn, file
